@@ -153,10 +153,12 @@ def c01(ctx):
     ensure_model(ctx)
     rng = Rng(ctx.seed).fork("C01")
     cases = []   # (width, key, data)
-    lens = list(G.LENS_SMALL) + G.LENS_MED + (G.LENS_BIG if ctx.tier == "thorough" else [4097])
+    lens = list(G.LENS_SMALL) + G.LENS_MED + (G.LENS_BIG + [(1 << 20) + 7] if ctx.tier == "thorough" else [4097, 8191, 8192, 8193, 65535, 65536, 65537])
     for n in lens:
         for mode in (0, 1, 2, 3, 4):
             if n > 300 and mode in (2, 3):
+                continue
+            if n > 5000 and mode != 1:
                 continue
             w = G.WIDTHS[(n + mode) % 3]
             cases.append((w, G.rand_key(rng) if mode < 2 else G.REF_KEY, rng.bytes(n, mode)))
@@ -256,6 +258,15 @@ def c05(ctx):
         hists.append(History(hid, lines, {"backend": b, "chunks": len(chunks), "nontrivial": n > 0}))
         ctx.count("chunks=%d" % min(len(chunks), 9))
         hid += 1
+    for n in ([8193, 65537] if ctx.tier == "quick" else [8191, 8192, 8193, 65535, 65536, 65537, (1 << 20) + 1]):   # large chunks, every entry point
+        for k, op in enumerate(G.FEED_OPS_STD[1:]):
+            b = X86_BACKENDS[(k + n) % 4]
+            d = rng.bytes(n + 45, 0)
+            w = G.WIDTHS[k % 3]
+            lines = [ctor(b, 0, G.DOC_KEY), ctor(b, 1, G.DOC_KEY), "append 0 %s" % hexs(d[:17]), "%s 0 %s" % (op, hexs(d[17:17 + n])),
+                     "append 0 %s" % hexs(d[17 + n:]), "fin%s 0" % w, "hash%s 1 %s" % (w, hexs(d))]
+            hists.append(History(hid, lines, {"backend": b, "big": n}))
+            hid += 1
     for i in range(20 if ctx.tier == "quick" else 400):     # all-singletons
         b = X86_BACKENDS[i % 4]
         n = 1 + rng.below(100)
@@ -328,8 +339,8 @@ def c02(ctx):
         rng = seed_rng.fork(impl.name)
         ops = feed_ops_for(impl)
         hists = []
-        lens = list(G.LENS_SMALL) + G.LENS_MED + ([4097, 65537] if ctx.tier == "thorough" else [4097])
-        cases = [(n, m) for n in lens for m in (0, 1)] + [(rng.below(400), rng.below(5)) for _ in range(150 if ctx.tier == "quick" else 6000)]
+        lens = list(G.LENS_SMALL) + G.LENS_MED + ([4097, 8193, 65535, 65536, 65537, (1 << 20) + 33] if ctx.tier == "thorough" else [4097, 8193, 65537])
+        cases = [(n, m) for n in lens for m in ((0, 1) if n < 5000 else (1,))] + [(rng.below(400), rng.below(5)) for _ in range(150 if ctx.tier == "quick" else 6000)]
         for hid, (n, mode) in enumerate(cases):
             key = G.rand_key(rng)
             d = rng.bytes(n, mode)
